@@ -1,7 +1,10 @@
 import Driver.Util
 import LentilVerif.Model.Fourier
+import LentilVerif.Model.FourierOut
 /-! Model driver ops for C01 (and the Float instantiation of the Fourier model reused by C05/C19):
-`c01.dft2`, `c01.idft2` run `Lentil.dft2`/`Lentil.idft2` at `K = Drv.CF`, `R = Float`. -/
+`c01.dft2`, `c01.idft2` run `Lentil.dft2`/`Lentil.idft2` at `K = Drv.CF`, `R = Float`; `c01.out` runs the buffer model
+`Lentil.dft2Out` (outcome tag and, when written, the buffer's contents); `c01.roundtrip` runs `idft2 ∘ dft2` with optional forward
+shift / offset and inverse shift. -/
 open Lean Lentil Drv
 namespace Ops.C01
 
@@ -52,8 +55,37 @@ def handle (op : String) (j : Json) : Option (R Json) :=
       let per ← match optVal j "period" with
         | none => pure #[f.s0, f.s1]
         | some p => do (← p.getArr?).mapM (·.getInt?)
-      let F := freeze (dft2 f al[0]! al[1]! per[0]! per[1]! 0 0 0 0 un)
-      pure (okJ [("F", cfArrToJson F), ("g", cfArrToJson (idft2 F al[0]! al[1]! f.s0 f.s1 0 0 un))])
+      -- optional forward "shift" (floats) / "offset" (ints) and inverse "ishift" (floats): the rolled, phased round trip
+      let sf ← match optVal j "shift" with
+        | none => pure #[(0 : Float), 0]
+        | some _ => getFloats j "shift"
+      let off ← match optVal j "offset" with
+        | none => pure #[(0 : Int), 0]
+        | some _ => getInts j "offset"
+      let isf ← match optVal j "ishift" with
+        | none => pure #[(0 : Float), 0]
+        | some _ => getFloats j "ishift"
+      let F := freeze (dft2 f al[0]! al[1]! per[0]! per[1]! sf[0]! sf[1]! off[0]! off[1]! un)
+      pure (okJ [("F", cfArrToJson F), ("g", cfArrToJson (idft2 F al[0]! al[1]! f.s0 f.s1 isf[0]! isf[1]! un))])
+  | "c01.out" => some do
+      -- the `out=` path in the buffer model: "buf" = {"dtype", "shape", "strides" (in elements), "writeable"}
+      let f ← cfArrOfJson j
+      let al ← getFloats j "alpha"; let sh ← getInts j "oshape"
+      let sf ← getFloats j "shift"; let off ← getInts j "offset"
+      let un ← getBool j "unitary"
+      let bj ← j.getObjVal? "buf"
+      let dt ← match (← getStr bj "dtype") with
+        | "complex128" => pure BufDtype.complex128 | "complex64" => pure BufDtype.complex64
+        | "clongdouble" => pure BufDtype.clongdouble | "float64" => pure BufDtype.float64
+        | "int64" => pure BufDtype.int64 | "object" => pure BufDtype.object
+        | d => throw s!"c01.out: unknown buffer dtype {d}"
+      let bshape ← getInts bj "shape"; let bstr ← getInts bj "strides"
+      -- the buffer's previous contents: a constant the result must not depend on
+      let junk : Arr CF := { s0 := bshape.getD 0 0, s1 := bshape.getD 1 0, get := fun _ _ => ⟨7.5, -2.5⟩ }
+      let b : OutBuf CF := ⟨dt, bshape.toList, bstr.toList, ← getBool bj "writeable", junk⟩
+      match dft2Out f al[0]! al[1]! sh[0]! sh[1]! sf[0]! sf[1]! off[0]! off[1]! un (some b) with
+      | .ok r (some a) isBuf => pure (okJ [("outcome", Json.str "ok"), ("is_buffer", Json.bool isBuf), ("F", cfArrToJson r), ("B", cfArrToJson a)])
+      | o => pure (okJ [("outcome", Json.str o.tag)])
   | _ => none
 
 end Ops.C01
